@@ -7,6 +7,7 @@
    No proofs here. *)
 From Coq Require Import List ZArith NArith Bool Arith.
 From Jade Require Import Base.
+From Jade.Gen Require Import BatchGen.   (* time_exceeded, size_reached, queue_full: generated from the source *)
 Import ListNotations.
 Open Scope Z_scope.
 
@@ -25,14 +26,14 @@ Definition names (l : list cjob) : list N := map jname l.
 
 (* _BatchJobs.try_append *)
 Definition try_append (p : gparams) (b : batch) (j : cjob) : batch * bool :=
-  if g_time p && (b_time b + 60 * jest j >? g_max p)
+  if g_time p && time_exceeded (b_time b) (60 * jest j) (g_max p)
   then ({| b_jobs := b_jobs b; b_time := b_time b; b_ready := true |}, false)
   else
     let jobs' := b_jobs b ++ [j] in
     if g_time p
     then ({| b_jobs := jobs'; b_time := b_time b + 60 * jest j; b_ready := b_ready b |}, true)
     else ({| b_jobs := jobs'; b_time := b_time b;
-             b_ready := b_ready b || (g_size p <=? N.of_nat (length jobs'))%N |}, true).
+             b_ready := b_ready b || size_reached (N.of_nat (length jobs')) (g_size p) |}, true).
 
 (* _BatchJobs.is_job_blocked *)
 Definition is_blocked (p : gparams) (b : batch) (j : cjob) : bool :=
@@ -117,7 +118,7 @@ Record rstate := {
 }.
 Inductive round_result := ROk (r : rstate) | ROutOfFuel.
 
-Definition is_full (depth : N) (r : rstate) : bool := (depth <=? r_out r)%N.
+Definition is_full (depth : N) (r : rstate) : bool := queue_full (r_out r) depth.
 
 Definition submit_batch (p : gparams) (jobs : list cjob) (r : rstate) : rstate :=
   let ok := g_dry p || hd true (r_oks r) in
